@@ -253,6 +253,53 @@ def run(ctx):
                         ctx.violation('logits-depend-on-batch', 'logits inside the window differ from those of the line alone', inp, pos)
             if nlines >= 3:
                 ctx.nontriv(inp)
+        # ---- the glue above the engine: PageOCR.process_page puts result i onto line i of the page (lines spread over regions,
+        # empty regions, zero-width crops next to ordinary ones)
+        from pero_ocr.document_ocr.page_parser import PageOCR
+        from pero_ocr.core.layout import PageLayout, RegionLayout, TextLine
+        for _ in range(60 if ctx.quick() else 400):
+            gain[0] = 0.6
+            bs = rng.randrange(1, 9)
+            nlines = rng.randrange(1, 8)
+            ws = [rng.choice([0, rng.randrange(1, 40), rng.randrange(40, 300), rng.randrange(40, 300)]) for _ in range(nlines)]
+            crops = [stubs.random_line(rng, w) if w else np.zeros((32, 0, 3), dtype=np.uint8) for w in ws]
+            nreg = rng.randrange(1, 4)
+            regs = [RegionLayout('r%d' % r, np.array([[0, 0], [10, 0], [10, 10], [0, 10]])) for r in range(nreg)]
+            where = sorted(rng.randrange(nreg) for _ in range(nlines))
+            for i, (r, c) in enumerate(zip(where, crops)):
+                ln = TextLine(id='l%d' % i, baseline=np.array([[0, 5], [10, 5]]), polygon=np.array([[0, 0], [10, 0], [10, 10], [0, 10]]), heights=[3, 1])
+                ln.crop = c
+                regs[r].lines.append(ln)
+            page = PageLayout(id='p', page_size=(100, 100))
+            page.regions = regs
+            inp = dict(stage='PageOCR.process_page', widths=ws, batch_size=bs, lines_per_region=[where.count(r) for r in range(nreg)])
+            ctx.evaluations += 1
+            try:
+                rt, rl, rc = engine(bs).process_lines(list(crops))
+            except Exception as e:
+                ctx.count('page_ocr:engine_rejects:' + type(e).__name__)
+                continue
+            pocr = object.__new__(PageOCR)
+            pocr.ocr_engine = engine(bs)
+            try:
+                pocr.process_page(None, page)
+            except Exception as e:
+                ctx.violation('page-ocr-raises:' + type(e).__name__, 'PageOCR.process_page raised %r although the engine recognises these crops' % (e,), inp)
+                continue
+            for i, ln in enumerate(page.lines_iterator()):
+                if ln.logits is None or ln.logit_coords is None or ln.transcription is None:
+                    ctx.violation('page-ocr:position', "a page line was left without the transcription / logits / frame window computed from its crop",
+                                  inp, [i, ln.transcription, rt[i]])
+                    break
+                a = ln.logits.toarray() if sparse.issparse(ln.logits) else np.asarray(ln.logits)
+                b = rl[i].toarray() if sparse.issparse(rl[i]) else np.asarray(rl[i])
+                if ln.id != 'l%d' % i or ln.transcription != rt[i] or list(ln.logit_coords) != list(rc[i]) or a.shape != b.shape or np.abs(a - b).max(initial=0) > 1e-4:
+                    ctx.violation('page-ocr:position', "a page line does not carry the transcription / logits / frame window computed from its own crop",
+                                  inp, [i, ln.transcription, rt[i]])
+                    break
+            ctx.count('page_ocr_cases')
+            if 0 in ws and nlines >= 2:
+                ctx.nontriv(inp)
     finally:
         shutil.rmtree(tmp, ignore_errors=True)
     if ctx.driver_ok:
